@@ -630,9 +630,9 @@ func TestVFReplay(t *testing.T) {
 func yieldDirs(module string) []string {
 	if module == "server" || module == "serverreal" {
 		return []string{"server/utils", "server/service", "server/snapshot", "server/managers", "server/notification",
-			"client/pkg/internal/datatypes", "client/pkg/internal/managers"}
+			"client/pkg/internal/datatypes", "client/pkg/internal/managers", "client/pkg/orda/client.go"}
 	}
-	return []string{"client/pkg/internal/datatypes", "client/pkg/internal/managers"}
+	return []string{"client/pkg/internal/datatypes", "client/pkg/internal/managers", "client/pkg/orda/client.go"}
 }
 
 func packageNameOf(ov map[string]string, dir string) string {
